@@ -192,6 +192,9 @@ impl<const KK: usize> Default for Probe<KK> {
             Arc::new(Spec { tag: 9000 + KK as u32, ..Default::default() })
         });
         let mut p = Probe::new(spec);
+        // (the creation is an event of its own: a lookup that spawns a service on demand creates the value inside its
+        // own interval, whether or not it then waits for `started()`)
+        log::log(K::ObjNew { obj: p.obj, tag: 9000 + KK as u32 });
         // tag resolved in `started` (a recreated value belongs to whatever actor task runs it)
         p.tag = u32::MAX;
         p
